@@ -78,7 +78,11 @@ def _call(draw):
             else:
                 bad[p] = draw(_bad(k))
         return {"mode": mode, "m": m, "bad": bad, "content": draw(st.sampled_from(["new", "existing"])),
-                "pid": draw(st.sampled_from(PIDS + ["fresh"]))}
+                "pid": draw(st.sampled_from(PIDS + ["fresh"])),
+                # delete_if_invalid_object: which object the (valid) ObjectMetadata describes, and whether the
+                # (type-valid) expected size matches it - a rejected call must not act on a semantic mismatch
+                "dii_target": draw(st.sampled_from(["referenced", "unreferenced"])),
+                "dii_size": draw(st.sampled_from(["match", "mismatch"]))}
     if mode == "unknown":
         return {"mode": mode, "m": draw(st.sampled_from(["retrieve_object", "delete_object", "get_hex_digest",
                                                          "retrieve_metadata", "retrieve_metadata_fmt"])),
@@ -96,7 +100,8 @@ def _case(draw, tier):
     pop = draw(st.sampled_from([False, True, True]))
     hist = []
     if pop:
-        hist = [{"op": "store", "pid": "p1", "c": 0}, {"op": "smeta", "pid": "p1", "fmt": None, "d": 0},
+        hist = [{"op": "store", "pid": "p1", "c": 0}, {"op": "store", "pid": None, "c": 1},
+                {"op": "smeta", "pid": "p1", "fmt": None, "d": 0},
                 {"op": "smeta", "pid": "nobj", "fmt": None, "d": 0}, {"op": "smeta", "pid": "nobj", "fmt": "f2", "d": 1}]
         extra = ops.weighted(
             (3, ops.store_op(["p1", "p2"], 2, allow_none=True, validation=False)),
@@ -176,8 +181,14 @@ def run_case(case, ctx):
                 allowed |= {"ValueError"}
             if bad.get("expected_file_size", 1) is None:
                 must_raise = False
+            if c.get("dii_target") == "unreferenced" and "object_metadata" not in bad:
+                data1 = run.contents[1]
+                om = om_good = common.hs().ObjectMetadata(
+                    "HashStoreNoPid", hashlib.sha256(data1).hexdigest(), len(data1),
+                    {a: hashlib.new(a, data1).hexdigest() for a in common.DEFAULT_DIGESTS})
+            good_size = om_good.obj_size + (5 if c.get("dii_size") == "mismatch" else 0)
             fn = lambda: s.delete_if_invalid_object(om, g("checksum", om_good.hex_digests["sha256"]), alg,  # noqa
-                                                    g("expected_file_size", om_good.obj_size))
+                                                    g("expected_file_size", good_size))
         elif m == "store_metadata":
             if "format_id" in bad and bad["format_id"].strip():
                 must_raise, conditional = len(bad) > 1, len(bad) == 1
